@@ -62,7 +62,10 @@ func sampledBox(s sdf.SDF3, which string, cells int) (sdf.Box3, float64) {
 		n := size.DivScalar(h).Ceil().AddScalar(1).MulScalar(h)
 		return sdf.NewBox3(bb0.Center(), n), h
 	}
-	bb := bb0.ScaleAboutCenter(1.01)
+	// the octree renderer pads the box by 1% about its centre (computed here, not with the library's helper)
+	ctr := bb0.Min.Add(bb0.Max).MulScalar(0.5)
+	hs := bb0.Max.Sub(bb0.Min).MulScalar(0.5 * 1.01)
+	bb := sdf.Box3{Min: ctr.Sub(hs), Max: ctr.Add(hs)}
 	long := bb.Size().MaxComponent()
 	levels := math.Ceil(math.Log2(long/(0.5*h))) + 1
 	side := math.Pow(2, levels-1) * 0.5 * h
@@ -188,6 +191,13 @@ func c06Measure(args []string) error {
 		// sphere at a random centre
 		R := 0.8 + 1.7*rnd.Float64()
 		c := v3.Vec{X: rnd.Float64(), Y: rnd.Float64(), Z: rnd.Float64()}
+		// every other repetition: away from the origin, in a different octant each time (the bounding box does not
+		// contain the origin; its padding and the lattice origin must still be taken about the box, not the origin)
+		far := v3.Vec{}
+		if rep%2 == 1 {
+			far = [4]v3.Vec{{X: 10, Y: 0, Z: 0}, {X: 0, Y: -7, Z: 12}, {X: -25, Y: 30, Z: 0}, {X: 6, Y: 9, Z: -14}}[(rep/2)%4]
+			c = c.Add(far)
+		}
 		sp, _ := sdf.Sphere3D(R)
 		sps := sdf.Transform3D(sp, sdf.Translate3d(c))
 		shapes = append(shapes, measShape{name: "sphere", kind: "sphere", s: sps, radius: R, vol: 4.0 / 3 * math.Pi * R * R * R,
@@ -201,7 +211,7 @@ func c06Measure(args []string) error {
 		// box, rotated
 		bs := v3.Vec{X: 1 + rnd.Float64(), Y: 1 + rnd.Float64(), Z: 1 + rnd.Float64()}
 		bx, _ := sdf.Box3D(bs, 0)
-		rot := sdf.RotateX(rnd.Float64()).Mul(sdf.RotateY(rnd.Float64())).Mul(sdf.RotateZ(rnd.Float64()))
+		rot := sdf.Translate3d(far).Mul(sdf.RotateX(rnd.Float64())).Mul(sdf.RotateY(rnd.Float64())).Mul(sdf.RotateZ(rnd.Float64()))
 		shapes = append(shapes, measShape{name: "box", kind: "exact", s: sdf.Transform3D(bx, rot), vol: bs.X * bs.Y * bs.Z,
 			param: fmtf(bs.X, bs.Y, bs.Z)})
 		// cylinder
